@@ -20,13 +20,21 @@ func (o Op) checker() boltz.FieldChecker {
 	c := boltz.MapFieldChecker{}
 	for _, f := range o.Chk {
 		c[f] = struct{}{}
+		if f == "level" {
+			// the fields that are functions of the level are patched together with it
+			c["salary"], c["rate"], c["hired"] = struct{}{}, struct{}{}, struct{}{}
+		}
 	}
 	return c
 }
 
 func (o Op) person() Person {
+	base := boltz.BaseExtEntity{Id: o.Id, Tags: cloneTags(o.Tags), IsSystem: o.IsSys}
+	if o.Mig {
+		base.Migrate, base.CreatedAt, base.UpdatedAt = true, migTime, migTime
+	}
 	return Person{
-		BaseExtEntity: boltz.BaseExtEntity{Id: o.Id, Tags: cloneTags(o.Tags), IsSystem: o.IsSys},
+		BaseExtEntity: base,
 		Name:          o.Name, Nick: cloneStrP(o.Nick), Roles: append([]string(nil), o.Roles...), Dept: o.Dept,
 		Mentor: cloneStrP(o.Mentor), Groups: append([]string(nil), o.Groups...),
 	}
@@ -66,6 +74,8 @@ func ExecOp(s *Stores, ctx boltz.MutateContext, op Op) (res execResult) {
 			res.err = s.Reviews.Create(ctx, &Review{Id: op.Id, Reviewer: cloneStrP(op.Ref)})
 		case StFolders:
 			res.err = s.Folders.Create(ctx, &Folder{Id: op.Id, Parent: cloneStrP(op.Ref)})
+		case StDesks:
+			res.err = s.Desks.Create(ctx, &Desk{Id: op.Id, Occupant: cloneStrP(op.Ref)})
 		case StMemos:
 			res.err = s.Memos.Create(ctx, &Memo{Id: op.Id, Topic: cloneStrP(op.Ref)})
 		case StGroups:
@@ -95,6 +105,8 @@ func ExecOp(s *Stores, ctx boltz.MutateContext, op Op) (res execResult) {
 			res.err = s.Reviews.Update(ctx, &Review{Id: op.Id, Reviewer: cloneStrP(op.Ref)}, chk)
 		case StFolders:
 			res.err = s.Folders.Update(ctx, &Folder{Id: op.Id, Parent: cloneStrP(op.Ref)}, chk)
+		case StDesks:
+			res.err = s.Desks.Update(ctx, &Desk{Id: op.Id, Occupant: cloneStrP(op.Ref)}, chk)
 		case StMemos:
 			res.err = s.Memos.Update(ctx, &Memo{Id: op.Id, Topic: cloneStrP(op.Ref)}, chk)
 		case StGroups:
@@ -105,12 +117,17 @@ func ExecOp(s *Stores, ctx boltz.MutateContext, op Op) (res execResult) {
 	case "delete":
 		res.err = s.ByName(op.S).DeleteById(ctx, op.Id)
 	case "deleteWhere":
-		field := map[string]string{StNotes: "about", StTickets: "assignee", StBadges: "owner", StPeople: "name", StStaff: "name", StPX: "name", StMemos: "topic", StReviews: "reviewer", StFolders: "parent"}[op.S]
+		field := map[string]string{StNotes: "about", StTickets: "assignee", StBadges: "owner", StPeople: "name", StStaff: "name", StPX: "name", StMemos: "topic", StReviews: "reviewer", StFolders: "parent", StDesks: "occupant"}[op.S]
 		res.err = s.ByName(op.S).DeleteWhere(ctx, fmt.Sprintf(`%s = "%s"`, field, op.Q))
 	case "addLinks", "removeLinks", "setLinks", "addLink", "removeLink":
 		var lc boltz.LinkCollection = s.People.lcGroups
-		if op.S == StGroups {
+		switch op.S {
+		case StGroups:
 			lc = s.Groups.lcMembers
+		case StStaff:
+			lc = s.Staff.lcLeading
+		case SideLeads:
+			lc = s.Groups.lcLeads
 		}
 		switch op.K {
 		case "addLinks":
@@ -188,7 +205,7 @@ func classAccepted(actual string, acceptable []string) bool {
 
 // ---------- loading canonical snapshots from the real stores ----------
 
-func snapPersonReal(p *Person, view string, level int32, badgeNo, memo string) string {
+func snapPersonReal(p *Person, view string, level int32, badgeNo, memo string, staff ...*Staff) string {
 	roles := append([]string{}, p.Roles...)
 	sort.Strings(roles)
 	groups := append([]string{}, p.Groups...)
@@ -202,6 +219,9 @@ func snapPersonReal(p *Person, view string, level int32, badgeNo, memo string) s
 	switch view {
 	case StStaff:
 		s.Level, s.BadgeNo = level, badgeNo
+		if len(staff) == 1 {
+			s.Salary, s.Rate, s.Hired = staff[0].Salary, staff[0].Rate, staff[0].Hired.UnixNano()
+		}
 	case StPX:
 		s.Memo = memo
 	}
@@ -225,7 +245,7 @@ func snapEntity(store string, e boltz.Entity) string {
 		if v == nil {
 			return "<nil>"
 		}
-		return snapPersonReal(&v.Person, StStaff, v.Level, v.BadgeNo, "")
+		return snapPersonReal(&v.Person, StStaff, v.Level, v.BadgeNo, "", v)
 	case *PX:
 		if v == nil {
 			return "<nil>"
@@ -257,6 +277,11 @@ func snapEntity(store string, e boltz.Entity) string {
 			return "<nil>"
 		}
 		return simpleSnap(StFolders, v.Id, "", v.Parent)
+	case *Desk:
+		if v == nil {
+			return "<nil>"
+		}
+		return simpleSnap(StDesks, v.Id, "", v.Occupant)
 	case *Memo:
 		if v == nil {
 			return "<nil>"
@@ -330,6 +355,12 @@ func findSnap(s *Stores, tx *bbolt.Tx, store, id string) (string, error) {
 			return "", err
 		}
 		return snapEntity(store, e), nil
+	case StDesks:
+		e, found, err := s.Desks.FindById(tx, id)
+		if err != nil || !found {
+			return "", err
+		}
+		return snapEntity(store, e), nil
 	case StMemos:
 		e, found, err := s.Memos.FindById(tx, id)
 		if err != nil || !found {
@@ -366,6 +397,8 @@ func storeOfEntity(e boltz.Entity) string {
 		return StReviews
 	case *Folder:
 		return StFolders
+	case *Desk:
+		return StDesks
 	case *Group:
 		return StGroups
 	case *Memo:
